@@ -1352,8 +1352,10 @@ func stepLeader(r *raft, m *pb.Message) error {
 		r.bcastAppend()
 		return nil
 	case pb.MsgReadIndex:
-		// only one voting member (the leader) in the cluster
-		if r.trk.IsSingleton() {
+		// only one voting member (the leader) in the cluster. A leader that was
+		// removed from the configuration (and has not stepped down) is not that
+		// member and must not answer from its local state.
+		if _, isVoter := r.trk.Voters[0][r.id]; isVoter && r.trk.IsSingleton() {
 			if resp := r.responseToReadIndexReq(m, r.raftLog.committed); resp.GetTo() != None {
 				r.send(resp)
 			}
